@@ -248,6 +248,7 @@ type cookieTrial struct {
 func runC02(c *Ctx) {
 	tw := PlanTunnels(c, TunOpts{N: 1, Transports: []string{"ws", "legacy"}})
 	tw.Cfg.Hosts = append(tw.Cfg.Hosts, "host-a.test:3389")
+	tw.Cfg.SmartCardAuth = c.T.Bool(1, 3)
 	if !BootTun(c, tw, false) {
 		return
 	}
@@ -284,7 +285,13 @@ func runC02(c *Ctx) {
 		if c.T.Bool(1, 4) {
 			c.S.Advance(time.Duration(c.T.Choose(150)) * time.Second)
 		}
-		now := time.Now()
+		// the client may sit on the open connection between the handshake and the tunnel
+		// create; what counts is the time at which the cookie is presented
+		stall := time.Duration(0)
+		if c.T.Bool(1, 4) {
+			stall = time.Duration(20+c.T.Choose(420)) * time.Second
+		}
+		now := time.Now().Add(stall)
 		tr := c02Cookie(c, key, real, realHost, ip, at, int64(exp), now)
 		idpOK := idpKind == "valid"
 		c.W.IdP.UserinfoFault = ""
@@ -300,10 +307,23 @@ func runC02(c *Ctx) {
 		// one fresh tunnel per trial
 		name := fmt.Sprintf("k%d", i)
 		p := &TunPlan{Name: name, Transport: p0.Transport, From: p0.From, ConnID: fmt.Sprintf("{C02-%d-%d}", c.Res.Seed, i), AllowedHost: realHost, CloseAfter: -1}
-		p.Pkts = []CPkt{PHandshake(tw.MC.ServerCaps, 1, 0), PTunnelCreate(tr.cookie, accept)}
+		hsCaps := tw.MC.ServerCaps
+		if hsCaps == 3 {
+			// smart-card and cookie authentication both enabled: the client offers both or one
+			hsCaps = []uint16{3, 1, 2}[c.T.Choose(3)]
+		}
+		p.Pkts = []CPkt{PHandshake(hsCaps, 1, 0)}
 		before := c.W.IdP.UserinfoCalls(at)
 		tuns := StartTunnels(c, []*TunPlan{p})
 		t := tuns[0]
+		if stall > 0 {
+			c.S.Run(func() bool {
+				return t.Client.Failed != "" || t.Err != "" || len(t.Client.Packets()) >= 1 || t.Client.Ended()
+			}, 3000, 5*time.Second)
+			c.S.Advance(stall)
+			c.S.Count("fault.client.stall_before_tunnel_create")
+		}
+		p.Pkts = append(p.Pkts, PTunnelCreate(tr.cookie, accept))
 		// lock-step: run until the tunnel-create was answered or the stream ended
 		c.S.Run(func() bool {
 			return t.Client.Failed != "" || t.Err != "" || len(t.Client.Packets()) >= 2 || t.Client.Ended()
@@ -313,7 +333,7 @@ func runC02(c *Ctx) {
 			c.Infra("transport setup failed: %s %s", t.Client.Failed, t.Err)
 			return
 		}
-		log = append(log, fmt.Sprintf("%s/idp=%s/age=%ds->%v", tr.kind, idpKind, now.Unix()-mintT.Unix(), accept))
+		log = append(log, fmt.Sprintf("%s/caps=%d/idp=%s/stall=%ds/age=%ds->%v", tr.kind, hsCaps, idpKind, int(stall.Seconds()), now.Unix()-mintT.Unix(), accept))
 		c.S.Count("probe.cookie." + strings.SplitN(tr.kind, ":", 2)[0])
 		if idpKind != "valid" {
 			c.S.Count("fault.idp." + idpKind)
